@@ -7,3 +7,11 @@ import TradingVerif.Props.C02
 #print axioms TV.envStep_congr
 #print axioms TV.sortEvents_filter
 #print axioms TV.bucket_le_iff
+#print axioms TV.notify_mod_pending
+#print axioms TV.processNonlatent_mod_pending
+#print axioms TV.envStep_mod_pending
+#print axioms TV.envStep_frame
+#print axioms TV.run_no_lookahead
+#print axioms TV.reset_no_lookahead
+#print axioms TV.episode_no_lookahead
+#print axioms TV.episode_no_lookahead_streams
